@@ -700,7 +700,7 @@ func binop(op token.Token, t types.Type, x, y value) value {
 	case token.SHL:
 		u, ok := asUnsigned(y)
 		if !ok {
-			panic("negative shift amount")
+			panic(targetPanicMsg("runtime error: negative shift amount"))
 		}
 		y := asUint64(u)
 		switch x.(type) {
@@ -731,7 +731,7 @@ func binop(op token.Token, t types.Type, x, y value) value {
 	case token.SHR:
 		u, ok := asUnsigned(y)
 		if !ok {
-			panic("negative shift amount")
+			panic(targetPanicMsg("runtime error: negative shift amount"))
 		}
 		y := asUint64(u)
 		switch x.(type) {
@@ -1547,7 +1547,7 @@ func sliceToArrayPointer(t_dst, t_src types.Type, x value) value {
 			if arr, ok := ptr.Elem().Underlying().(*types.Array); ok {
 				x := x.([]value)
 				if arr.Len() > int64(len(x)) {
-					panic("array length is greater than slice length")
+					panic(targetPanicMsg(fmt.Sprintf("runtime error: cannot convert slice with length %d to array or pointer to array with length %d", len(x), arr.Len())))
 				}
 				if x == nil {
 					return zero(t_dst)
